@@ -9,7 +9,7 @@ HARNESS = ("h_generator", ["h_generator.cpp"], {})
 HARNESS_T = ("h_generator_t", ["h_generator_t.cpp"], {"extra_flags": ["-fno-access-control", "-I/verif/harness/shim"]})
 
 ACCESS = ("next", "nnext", "anext", "call", "begin", "beginc", "inc", "pinc", "for", "while", "sub", "subr")
-REJECT = ("busy", "gone", "n/a", "noit", "bad-op", "blocked", "bad")
+REJECT = ("busy", "gone", "n/a", "noit", "bad-op", "blocked", "bad", "stale")
 
 
 _hang_files = []
@@ -120,6 +120,8 @@ PROFILES = {
                          styles_a=["anext", "call", "sub", "mixed"], quick=1500, thorough=80000),
     "reentrant-callback": dict(p_arg=0.5, flavours=["async", "mixed", "args", "sync"], styles_v=["sub", "sub", "mixed"],
                                styles_a=["sub", "sub", "mixed"], quick=2000, thorough=80000),
+    "reference-values": dict(p_arg=0.4, p_ref=1.0, flavours=["sync", "async", "mixed", "args"], styles_v=["call", "call", "call-wait", "mixed"],
+                             styles_a=["call", "call", "call-wait", "mixed"], quick=2000, thorough=70000),
     "arguments": dict(p_arg=1.0, flavours=["args", "args", "mixed"], styles_v=["mixed"], styles_a=["next", "anext", "call", "while", "mixed", "mixed"],
                       quick=1500, thorough=70000),
     "destroy-parked": dict(p_arg=0.2, flavours=["guards"], styles_v=["next", "anext", "call", "iter", "mixed"],
@@ -180,10 +182,14 @@ class GenSuite(Suite):
 
     def gen_case(self, rng, tier):
         mode = "a" if rng.random() < self.prof["p_arg"] else "v"
+        # value type: int, or a reference (generator<int&> / generator<int&,int>): same bodies, same model; iterators do not exist for it
+        ref = rng.random() < self.prof.get("p_ref", 0.3)
         acts = self.gen_script(rng, mode)
         ks = sorted({int(a[1:]) for a in acts if a[0] in "pf"})
-        lines = ["case 0 %s %d" % (mode, rng.choice([0, 0, 1, 2])), "script " + " ".join(acts)]
+        lines = ["case 0 %s%s %d" % ("r" if ref else "", mode, rng.choice([0, 0, 1, 2])), "script " + " ".join(acts)]
         style = rng.choice(self.prof["styles_a"] if mode == "a" else self.prof["styles_v"])
+        if ref and style in ("iter", "for"):
+            style = rng.choice(["call", "call-wait", "next", "while"])
         nops = rng.randint(2, 8) if rng.random() < 0.25 else rng.randint(6, 26)
         arg = 100
         pre = rng.random() < 0.15          # complete some operations before the body reaches them
@@ -254,16 +260,18 @@ class GenSuite(Suite):
             elif style == "call":
                 ops = [access("call")]
                 if rng.random() < 0.3:
-                    ops.append(rng.choice(["fawait", "fhas", "fget"]))
+                    ops.append(rng.choice(["fawait", "fhas", "fget"]))   # (a reader parked on the pending future)
                 if ks and rng.random() < 0.6:
                     ops += [completion() for _ in range(rng.randint(1, 2))]
-                ops.append(rng.choice(["fwait", "fwait", "fawait", "fhas", "fget", "fget"]))
+                ops.append(rng.choice(["fwait", "fwait", "fawait", "fhas", "fget", "fget", "fbool", "fnot", "fbool"]))
                 if rng.random() < 0.3:
                     ops.append(rng.choice(["fwait", "fget", "value"]))
             elif style == "call-wait":
                 ops = [access("call"), "fwait"]
                 if rng.random() < 0.3:
                     ops.insert(1, rng.choice(["fawait", "fhas"]))
+                if rng.random() < 0.4:
+                    ops[-1:] = [rng.choice(["fbool", "fnot"]), "fwait"]       # if (f) use(*f)
             elif style == "iter":
                 if not have_it:
                     ops = [rng.choice(["begin", "beginc"]), "isend", rng.choice(["deref", "arrow"])]
@@ -282,17 +290,17 @@ class GenSuite(Suite):
                     ops.append(completion())
             else:
                 kinds = ["next", "nnext", "anext", "call", "sub", "value", "complete", "fread", "while", "active", "getid"]
-                if mode == "v":
+                if mode == "v" and not ref:
                     kinds += ["begin", "beginc", "inc", "pinc", "deref", "arrow", "isend", "for"]
                 k = rng.choice(kinds)
                 if k == "complete":
                     ops = [completion()]
                 elif k == "fread":
-                    ops = [rng.choice(["fwait", "fget", "fawait", "fhas"])]
+                    ops = [rng.choice(["fwait", "fget", "fawait", "fhas", "fbool", "fnot"])]
                 elif k in ("next", "nnext", "anext", "call", "sub", "while"):
                     ops = [access(k)]
                     if rng.random() < 0.5 and k != "while":
-                        ops.append("value" if k != "call" else rng.choice(["fwait", "fget", "fawait", "fhas"]))
+                        ops.append("value" if k != "call" else rng.choice(["fwait", "fget", "fawait", "fhas", "fbool", "fnot"]))
                 else:
                     ops = [k]
             lines += ops
@@ -311,7 +319,7 @@ class GenSuite(Suite):
     def oracle(self, case, out):
         msgs = []
         lines = case["lines"]
-        mode = lines[0].split()[2]
+        mode = lines[0].split()[2].lstrip("r")      # rv / ra: reference-typed generators, same statement
         if len(lines) < 2 or not lines[1].startswith("script"):
             return msgs
         ys, ending, acts = parse_script(lines[1])
@@ -458,7 +466,17 @@ class GenSuite(Suite):
                     dtor_seen.add(e)
             if need_got is not None:
                 msgs.append("argument: the co_yield resumed by access #%d did not return its argument %s" % need_got)
-            if kind in ("fwait", "fget") and res and res[0] not in ("nofut", "pending") and fut_idx is not None:
+            if kind in ("fbool", "fnot") and res and res[0] in ("true", "false") and fut_idx is not None:
+                # `if (f)` / `if (!f)`: the future of access fut_idx carries a result iff the body yielded or threw there
+                k2, _ = expect(fut_idx)
+                if (res[0] == "true") != (k2 in ("val", "exc")):
+                    what = "no value" if res[0] == "false" else "a value"
+                    msgs.append("end: %s on the future of access #%d reports %s" % ("if (f)" if kind == "fbool" else "if (!f)", fut_idx, what))
+                if inflight and inflight[0] == "call":
+                    cur = inflight[1]
+                    inflight = None
+                fut_done = True
+            if kind in ("fwait", "fget") and res and res[0] not in ("nofut", "pending", "stale") and fut_idx is not None:
                 check_item(fut_idx, res[0], "future." + ("wait()" if kind == "fwait" else "value()"))
                 if inflight and inflight[0] == "call":
                     cur = inflight[1]
@@ -490,7 +508,7 @@ class GenSuite(Suite):
                 if kv.get("made") != kv.get("once") or kv.get("multi") != "0":
                     msgs.append("destroy: %s guards constructed in the body, %s destroyed exactly once, %s more than once"
                                 % (kv.get("made"), kv.get("once"), kv.get("multi")))
-                if fut_idx is not None and kv.get("fut") not in (None, "none"):
+                if fut_idx is not None and kv.get("fut") not in (None, "none", "stale"):
                     check_item(fut_idx, kv["fut"], "future at the end")
         return msgs
 
@@ -508,7 +526,7 @@ class GenSuite(Suite):
         helped = resumed_by_complete = other_thread = exc_bodies = destroyed_parked = 0
         for c in cases:
             hdr = c["lines"][0].split()
-            modes[hdr[2]] = modes.get(hdr[2], 0) + 1
+            modes[hdr[2]] = modes.get(hdr[2], 0) + 1     # v / a / rv / ra
             for a in c["lines"][1].split()[1:]:
                 acts[a[0]] = acts.get(a[0], 0) + 1
             exc_bodies += "t" in c["lines"][1].split()[1:]
@@ -565,9 +583,10 @@ class ExhSuite(GenSuite):
                 if idx % self.parts != self.part:
                     continue
                 mode = "a" if (idx // self.parts) % 3 == 0 else "v"
+                ref = (idx // self.parts) % 5 in (1, 3) and "for" not in ops      # generator<int&> / generator<int&,int>
                 if mode == "a" and "for" in ops and not all((idx + j) % 2 for j, o in enumerate(ops) if o == "for"):
                     mode = "v"
-                lines = ["case 0 %s %d" % (mode, idx % 3), "script " + " ".join(acts)]
+                lines = ["case 0 %s%s %d" % ("r" if ref else "", mode, idx % 3), "script " + " ".join(acts)]
                 for j, o in enumerate(ops):
                     # alternative spellings of the same model steps, selected by the (deterministic) case index
                     if o == "next" and (idx + j) % 2:
@@ -576,6 +595,8 @@ class ExhSuite(GenSuite):
                         o = "while"
                     elif o == "value" and (idx + j) % 4 == 1:
                         o = "active"
+                    elif o == "fwait" and (idx + j) % 3 == 1:
+                        o = "fbool" if (idx + j) % 2 else "fnot"
                     lines.append("%s %d" % (o, 10 + 2 * j) if mode == "a" and o in ("next", "nnext", "anext", "call", "subr 1", "while") else o)
                 lines.append("end")
                 cases.append({"id": 0, "lines": lines})
